@@ -213,9 +213,18 @@ func (m *maxInflightWrapper) SetLimit(acquireResult *AcquireResult) bool {
 		atomic.StoreInt32(&m.acquiredMaxInflight, limit)
 		m.FlowControl.Resize(uint32(limit), 0)
 	} else {
+		// the cap sent with a reject is applied like a granted quota: never negative
+		// (uint32(negative) would mean no limit at all) and never above the global limit
+		limit := result.Limit
+		if limit < 0 {
+			limit = 0
+		}
+		if limit > m.max {
+			limit = m.max
+		}
 		atomic.StoreInt32(&m.overLimited, 1)
-		atomic.StoreInt32(&m.acquiredMaxInflight, result.Limit)
-		m.FlowControl.Resize(uint32(result.Limit), 0)
+		atomic.StoreInt32(&m.acquiredMaxInflight, limit)
+		m.FlowControl.Resize(uint32(limit), 0)
 	}
 
 	atomic.StoreInt64(&m.lastAcquireTime, acquireResult.requestTime)
